@@ -17,6 +17,8 @@ from .tlc import MachineryFailure
 from .twins import twin_canon, twin_is_gpg_entry, twin_is_hex_key, twin_is_raw_entry
 
 NK, NA, NJ = 8, 3, 3
+BIG = {"NK": 160, "NA": 6, "NJ": 400}
+LIMITS = {"NK": NK, "NA": NA, "NJ": NJ}
 
 
 def oracle_verify(pub_hex: str, data: bytes, sig_hex: str) -> bool:
@@ -66,7 +68,7 @@ def alpha_call(envelope, auth, thr, gpg, outcome, must=None):
                     name, crypto.gpg_digest(Pb, bytes.fromhex(val["other_headers"])), val["signature"]):
                 v = [shape, "self", "P", "gpg", True]
         entries.append({"name": nm, "v": v})
-    if len(idx) > NK or na > NA or nj > NJ:
+    if len(idx) > LIMITS["NK"] or na > LIMITS["NA"] or nj > LIMITS["NJ"]:
         return None
     return {"api": "verify_signable", "entries": entries, "auth": sorted({idx[h] for h in auth}),
             "thr": thr, "gpg": gpg, "outcome": lib.family(outcome),
@@ -331,3 +333,60 @@ def fixture_traces(run, owner):
         conc[tid] = [{"label": label, "envelope": env, "authorized": auth, "threshold": thr, "gpg": gpg, "observed": out, "exc": exc}]
     judge(run, traces, conc, owner, label="fixture")
     run.extra["fixture_calls"] = [c[0] for c in calls]
+
+
+def big_envelopes(run, n, owner):
+    """Scale: envelopes with up to 150 authorized keys, thresholds up to the number of keys and up to 400 junk / foreign
+    entries, judged by Trace_Verify.tla instantiated with NK = 160, NJ = 400."""
+    fn = lib.cct("authentication").verify_signable
+    keys = gamma.Keys(150, run.seed, offset=2000)
+    r = random.Random(run.seed * 53 + 29)
+    traces, conc = [], {}
+    LIMITS.update(BIG)
+    try:
+        for tid in range(1, n + 1):
+            P, _ = gamma.make_payloads(r)
+            Pb = twin_canon(P)
+            nk = r.choice([9, 33, 64, 65, 127, 128, 129, 150])
+            ks = r.sample(range(1, 151), nk)
+            gpg = r.random() < 0.5
+            hdr = r.choice(gamma.HEADERS)
+            nvalid = r.choice([0, 1, nk // 2, nk - 1, nk])
+            valid = set(r.sample(ks, nvalid))
+            sigs = {}
+            for k in ks:
+                if k in valid:
+                    sigs[keys.pub[k]] = ({"other_headers": hdr.hex(), "signature": keys.sign(k, crypto.gpg_digest(Pb, hdr)).hex()} if gpg
+                                         else {"signature": keys.sign(k, Pb).hex()})
+                elif r.random() < 0.5:
+                    sigs[keys.pub[k]] = {"signature": gamma.flip_bit(keys.sign(k, Pb), r).hex()}
+            for j in range(r.choice([0, 10, 255, 256, 300])):
+                sigs["junk-%d-%s" % (j, "x" * (j % 7))] = r.choice([{"signature": "0" * 128}, "x", None, j])
+            items = list(sigs.items())
+            r.shuffle(items)
+            env = {"signatures": dict(items), "signed": P}
+            auth = [keys.pub[k] for k in ks]
+            r.shuffle(auth)
+            for thr in sorted({1, max(1, nvalid), nvalid + 1, nk}):
+                out, exc, _ = lib.call(fn, env, list(auth), thr, gpg=gpg)
+                run.evaluations += 1
+                ev = alpha_call(env, auth, thr, gpg, out)
+                if ev:
+                    traces.append({"id": len(traces) + 1, "events": [ev]})
+                    conc[len(traces)] = [{"note": f"{nk} authorized keys, {nvalid} valid signers, {len(sigs)} entries, threshold {thr}, gpg={gpg}", "observed": out, "exc": exc}]
+    finally:
+        LIMITS.update({"NK": NK, "NA": NA, "NJ": NJ})
+    if traces:
+        seen = validate(run, traces, cfg="Trace_Verify_big.cfg")
+        for t in traces:
+            line = seen[(t["id"], 1)]
+            ev = t["events"][0]
+            run._distinct.add("big%d" % t["id"])
+            if line["ok"]:
+                run.traces_validated += 1
+            else:
+                o = {"observed": ev["outcome"], "allowed": line["allowed"], "must_ok": True}
+                if owner(o):
+                    run.violation(f"large envelope: verify_signable gpg={ev['gpg']} allowed={'|'.join(line['allowed'])} observed={ev['outcome']}",
+                                  {"kind": "verify_signable_big", "concrete": conc[t["id"]][0], "allowed": line["allowed"]})
+    run.extra["big_envelope_calls"] = len(traces)
